@@ -124,6 +124,11 @@ func evKind(e string) string {
 func checkCase(w *world, mon *lib.Monitor, c scase) (ow, og outcome) {
 	ow = runCase(w.wrapCC, w.srv, c, true)
 	og = runCase(w.grpcCC, w.srv, c, false)
+	if og.skip || ow.skip {
+		og.timedOut = true
+		mon.Count("skipped:too-slow-for-deadline")
+		return
+	}
 	if og.timedOut {
 		// the reference transport itself did not complete: the case is outside the hypothesis (or the
 		// machine is overloaded); nothing is concluded from it
